@@ -3,7 +3,7 @@ from vf.gen import pick_weighted
 from props import porcelain_lib as P
 
 ID = "C25"
-THEOREMS = ["C25_reset_hard", "C25_checkout_force", "C25_clean_status", "C25_untracked_refuted", "C25_untracked_partial"]
+THEOREMS = ["C25_reset_hard", "C25_checkout_force", "C25_clean_status", "C25_untracked_refuted", "C25_untracked_partial", "C25_staged_new_refuted"]
 MODEL_FILES = ["Porcelain.v"]
 MODELLED = ("worktree.go: Checkout, createBranch, getCommitFromCheckoutOptions, setHEADToCommit/Branch, Reset (all five modes), "
             "resetIndex, resetWorktree, resetWorktreeToTree (steps 1-2), checkoutChange, containsUnstagedChanges, "
